@@ -156,4 +156,25 @@ PROPS["C03"]["quick"]["jobs"].append(rapid_job("sm", "^TestC09SM$", 60, shards=2
 PROPS["C15"]["quick"]["jobs"].append(rapid_job("sm", "^TestC15SM$", 150, shards=2))
 PROPS["C15"]["thorough"]["jobs"].append(rapid_job("sm", "^TestC15SM$", 800, shards=8, timeout="50m"))
 
+PROPS["C06"] = {
+    "title": "Auto-fail and auto-pause fire exactly on their documented triggers",
+    "level": "exploration",
+    "level_text": "Generated canary situations (0-3 up-to-date canary pods with 1-2 containers, restart counts at/below/above both thresholds, last-termination times, waiting reasons inside and outside the cannot-start set and ContainerCreating, start time around maxSlowStartDuration, every autoPause/autoFail enabled combination and threshold pair, optional maxSlowStartDuration/maxRestartsDuration/canaryTimeout, previous Canary/Canary-Paused/Canary-Failed/PodRestarting conditions with ages around the limits, pause/unpause annotations) are run through 1-4 real canary syncs (ExtendedDaemonSetReplicaSet Reconcile on the virtual clock) with pod changes in between; the stored Canary-Failed/Canary-Paused conditions are compared with a three-valued reference verdict (must / must-not / either at one-second boundaries and where the statement is silent), including stickiness of Failed, unpause overriding pause but not failure, disabled features never firing, and no canary pod creation in a sync that ends paused or failed. The same verdict monitor runs in the canary-biased history tests.",
+    "level_note": "One-second bands around every time limit are 'either' (stored timestamps are second-truncated); with zero evaluable pods only stickiness of Failed and the unpause rule are judged (the statement's premise is 'at least one up-to-date canary pod').",
+    "technique": "property-based testing (rapid) against a three-valued reference verdict, multi-sync feedback of the stored status",
+    "quick": {"jobs": [rapid_job("verdict", "^TestC06Verdict$", 2500, shards=4)]},
+    "thorough": {"jobs": [rapid_job("verdict", "^TestC06Verdict$", 20000, shards=16, timeout="50m")]},
+}
+
+PROPS["C16"] = {
+    "title": "Defaulting is a fixed point and no accepted spec can crash the controller",
+    "level": "exploration",
+    "level_text": "Strategies are drawn from the boundary lattice of every field (absent, 0, negative, 1, huge, percent, malformed percent, plain string; durations <= 0 and > 0; booleans; validation mode; canary block and sub-blocks present or absent; unusable canary nodeSelector) for both controller default modes; the oracle checks Default idempotent and non-mutating, IsDefaulted(Default(x)), every field the reconcilers dereference filled, no user-set value changed (only template.metadata.name cleared), Validate returning and rejecting the three documented cases, and then runs 11 rounds of the real reconcilers (first deployment, template change so the canary paths execute, restarting pods, elapsed time) on a store holding the undefaulted object: errors are fine, a panic is a violation. The thorough tier adds coverage-guided native fuzzing of the serialized strategy (accepted iff it decodes into the typed spec and validationMode is in the CRD enum).",
+    "level_note": "The CRD schema constrains only types, the validationMode enum and int-or-string, which is what 'accepted' means here; template content is fixed (one container).",
+    "technique": "property-based testing (rapid) over a boundary lattice with round-trip/idempotence oracles and crash detection + native go fuzz of the serialized spec",
+    "quick": {"jobs": [rapid_job("lattice", "^TestC16Lattice$", 1500, shards=4)]},
+    "thorough": {"jobs": [rapid_job("lattice", "^TestC16Lattice$", 12000, shards=12, timeout="50m"), fuzz_job("fuzz-spec", "^FuzzC16Spec$", fuzztime="90s", workers=4)]},
+    "log_violations": True,
+}
+
 NOT_APPLICABLE = {}
